@@ -66,6 +66,23 @@ def configs(tier):
   # a producer that starts after the stop request (late)
   late = [(q, dict(prods=[2], cap=1, cons=['get'], stop='plain', late=True)),
           (q, dict(prods=[2], cap=0, cons=['get'], stop='exc', late=True))]
+  # a failure followed by a plain stop request (the failure must stay visible)
+  # and consumers that only look after the failure / the stop has happened
+  late += [(q, dict(prods=[2], cap=cap, cons=[m], fail=[0, pos], stop='plain',
+                    stop_after_fail=True))
+           for cap in ((1,) if tier == 'quick' else (0, 1)) for pos in (0, 1)
+           for m in ('get', ['bbatch', 2])]
+  late += [(q, dict(prods=[2], cap=1, cons=['get', 'get'], fail=[0, 1],
+                    stop='plain', stop_after_fail=True)),
+           (q, dict(prods=[2], cap=1, cons=['get', ['batch', 0]], fail=[0, 1],
+                    stop='plain', stop_after_fail=True, late_cons=True)),
+           (q, dict(prods=[2], cap=0, cons=['get'], fail=[0, 1],
+                    late_cons=True)),
+           (q, dict(prods=[2], cap=0, cons=['iter'], fail=[0, 0], stop='exc',
+                    stop_after_fail=True, late_cons=True)),
+           (q, dict(prods=[2], cap=1, cons=['get'], stop='exc', late_cons=True)),
+           (q, dict(prods=[2], cap=1, cons=[['bbatch', 2]], stop='plain',
+                    late_cons=True))]
   deep = [c for c in two if c[1].get('fail') and c[1]['cap'] == 1
           and c[1]['cons'][0] in ('get', ['bbatch', 2])
           and not c[1].get('ignore_error')]
@@ -104,7 +121,8 @@ def run(ctx):
       'sequential consistency at bytecode granularity (CPython GIL)',
       'timed waits expire only at quiescence (virtual clock)',
       'the stop request arrives after every producer has begun, except in the '
-      'explicitly "late" configurations',
+      'explicitly "late" configurations; in the "after-failure" configurations '
+      'it arrives after the failing producer has returned',
   ]
   for label, bound, cfgs in groups:
     explorer.explore_all(ctx, MODULE, cfgs, pre_bound=bound, split=24,
